@@ -492,6 +492,7 @@ func checkC16(c *Ctx) {
 	checkAbortRespected(c, "C16.abort-respected")
 	checkErrPolarity(c, "C16.err-polarity")
 	checkRound4Misc(c, "C16")
+	checkC16ArgDropped(c)
 }
 
 func instrString(in ssa.Instruction) string {
